@@ -1,6 +1,7 @@
 package main
 
 import (
+	"crypto/sha1"
 	"fmt"
 	"go/ast"
 	"go/token"
@@ -648,6 +649,8 @@ type dop struct {
 	F     int    `json:"f"`
 }
 
+const dumperHelpersPin = "9ab318c2c843bebac202b69c59119b808cbae864"
+
 func genDumper(c *ctx, s *schema) {
 	const comp = "dumper"
 	f := c.parseFile("pkg/visitor/dumper/dumper.go")
@@ -771,6 +774,21 @@ func genDumper(c *ctx, s *schema) {
 		}
 	}
 	c.side["dumper_helpers"] = helperText
+	// the helpers are hand-modelled (Model/Dumper.lean: dumpOp, dumpTokBody, dumpFFBody, dumpPos): text pinned
+	{
+		var hk []string
+		for h := range helperText {
+			hk = append(hk, h)
+		}
+		sort.Strings(hk)
+		var hb strings.Builder
+		for _, h := range hk {
+			hb.WriteString(h + " " + helperText[h] + "\n")
+		}
+		if sum := fmt.Sprintf("%x", sha1.Sum([]byte(hb.String()))); sum != dumperHelpersPin {
+			c.fail(comp, f.Pos(), "the dumper's helpers (hand-modelled in Model/Dumper.lean) changed: sha1 %s, modelled %s", sum, dumperHelpersPin)
+		}
+	}
 
 	var b strings.Builder
 	b.WriteString("-- GENERATED by gofacts from pkg/visitor/dumper/dumper.go. Do not edit.\n")
@@ -784,6 +802,7 @@ func genDumper(c *ctx, s *schema) {
 	}
 	writeTable(&b, "dumpTab", "List (Nat × Nat × Nat)", "dump_", len(s.Kinds))
 	fmt.Fprintf(&b, "def dumpHeaders : List Nat := %s\n\n", natList(headers))
+	fmt.Fprintf(&b, "def dumpLblFF : Nat := %d\ndef dumpLblID : Nat := %d\n\n", c.intern("FreeFloating"), c.intern("ID"))
 	b.WriteString("end PhpVerif.Gen\n")
 	writeIfChanged(c.out+"/DumperTab.lean", b.String())
 	c.side["dumper"] = tabs
